@@ -805,7 +805,13 @@ pub fn oracle(ctx: &Ctx, rng: &mut Rng, o: &mut Out) {
             if !well_indented(text, i_src) {
               continue;
             }
-            let tmpl = format!("g(\n{}$A\n)", " ".repeat(c));
+            // the same variable a second time at ANOTHER column (half of the cases): every use is
+            // re-indented for its own slot
+            let c2: Option<usize> = if rng.chance(1, 2) { Some((c + 1 + rng.below(7)) % 9) } else { None };
+            let tmpl = match c2 {
+              None => format!("g(\n{}$A\n)", " ".repeat(c)),
+              Some(d) => format!("g(\n{}$A\n{}$A\n)", " ".repeat(c), " ".repeat(d)),
+            };
             let mut env = MetaVarEnv::new();
             env.insert("A", (*cap).clone());
             let nm = NodeMatch::new(site.clone(), env);
@@ -813,13 +819,16 @@ pub fn oracle(ctx: &Ctx, rng: &mut Rng, o: &mut Out) {
             // reference: the snippet's continuation lines lose i_src and gain c + i_m spaces;
             // the template's own continuation lines gain i_m
             let ls = lines_of(text);
-            let mut expected: Vec<u8> = b"g(\n".to_vec();
-            expected.extend(std::iter::repeat(b' ').take(i_m + c));
-            expected.extend_from_slice(ls[0]);
-            for l in &ls[1..] {
+            let mut expected: Vec<u8> = b"g(".to_vec();
+            for col in std::iter::once(c).chain(c2) {
               expected.push(b'\n');
-              expected.extend(std::iter::repeat(b' ').take(i_m + c));
-              expected.extend_from_slice(&l[i_src..]);
+              expected.extend(std::iter::repeat(b' ').take(i_m + col));
+              expected.extend_from_slice(ls[0]);
+              for l in &ls[1..] {
+                expected.push(b'\n');
+                expected.extend(std::iter::repeat(b' ').take(i_m + col));
+                expected.extend_from_slice(&l[i_src..]);
+              }
             }
             expected.push(b'\n');
             expected.extend(std::iter::repeat(b' ').take(i_m));
@@ -827,7 +836,7 @@ pub fn oracle(ctx: &Ctx, rng: &mut Rng, o: &mut Out) {
             n_shift += 1;
             let ok_full = got.as_deref() == Some(&expected[..]);
             // the property's own clause, line by line: lead(out_i) - (c + i_m) = lead(l_i) - i_src
-            let ok_rel = got.as_ref().is_some_and(|g| {
+            let ok_rel = c2.is_some() || got.as_ref().is_some_and(|g| {
               let out = lines_of(g);
               out.len() == ls.len() + 2 && (1..ls.len()).all(|i| lead(out[1 + i]) + i_src == lead(ls[i]) + c + i_m)
             });
@@ -835,7 +844,7 @@ pub fn oracle(ctx: &Ctx, rng: &mut Rng, o: &mut Out) {
               o.oracle(
                 "relative-indent",
                 false,
-                json!({"fp": if first_line_begins_with(text, i_src.saturating_sub(c)) { "relative-indent first-line-begins-with-indent".to_string() } else { format!("relative-indent {} c>0={} site>0={} src>c={}", class(true), c > 0, i_m > 0, i_src > c) },
+                json!({"fp": if first_line_begins_with(text, i_src.saturating_sub(c)) { "relative-indent first-line-begins-with-indent".to_string() } else { format!("relative-indent {} c>0={} site>0={} src>c={} twice={}", class(true), c > 0, i_m > 0, i_src > c, c2.is_some()) },
                   "src": src.text, "cap": [cap.range().start, cap.range().end], "site": site.range().start, "tmpl": tmpl,
                   "expected": String::from_utf8_lossy(&expected), "actual": got.map(|g| String::from_utf8_lossy(&g).to_string())}),
               );
